@@ -80,6 +80,8 @@ struct Ctx {
   void EnableTimeChoice();
   // allow spurious weak-CAS failures (at most `budget` per execution)
   void EnableWeakFail(int budget);
+  // every injection point of the fault layer is a scheduling point, also those of operations without a hook descriptor
+  void EnableAnonYield();
 };
 
 struct Scenario {
